@@ -873,6 +873,100 @@ pub fn conc_trees() -> Vec<RefTree> {
 }
 
 /// `harness conc <what> --seed S --tier T --out DIR`
+/// Real threads race the *first* data operations on a fresh node (a new red tree per round).  Per round two threads are
+/// released together; the pair of operations rotates through (try_set, try_set), (try_set, set), (try_set, get),
+/// (set, get).  Checked per round against the optional-slot specification: of two conditional sets on the empty slot
+/// exactly one wins and the loser gets its own value back; a conditional set racing a plain set either wins first (then the
+/// slot ends with the plain set's value) or is refused; a get sees nothing or the value being stored; what the slot holds
+/// at the end is what the winning order says; after the tree is gone every payload made in the round was dropped once.
+fn free_data_stress(rounds: usize) -> (Option<String>, Vec<(String, u64)>) {
+    use std::sync::atomic::AtomicUsize;
+    let tree = RefTree::Node(0, vec![RefTree::Tok(2, "a".into()), RefTree::Node(1, vec![RefTree::Tok(2, "b".into())])]);
+    let green = build_green(&tree);
+    let mut both_ok = 0u64;
+    let mut none_ok = 0u64;
+    let mut overlapped = 0u64;
+    let mut first: Option<String> = None;
+    for r in 0..rounds {
+        let root: Node = SyntaxNode::new_root(green.clone());
+        let made_before = NEXT_PAYLOAD.load(Ordering::SeqCst) as usize;
+        let gate = Arc::new(AtomicUsize::new(0));
+        let kind = r % 4;
+        let spawn = |me: usize, node: Node, gate: Arc<AtomicUsize>| {
+            std::thread::spawn(move || {
+                gate.fetch_add(1, Ordering::SeqCst);
+                while gate.load(Ordering::SeqCst) < 2 {
+                    std::hint::spin_loop();
+                }
+                let t0 = std::time::Instant::now();
+                let out = match (kind, me) {
+                    (0, _) | (1, 0) | (2, 0) => match node.try_set_data(Payload::new(10 + me as u32)) {
+                        Ok(a) => format!("ok {}", a.v),
+                        Err(p) => format!("err {}", p.v),
+                    },
+                    (1, _) | (3, 0) => format!("set {}", node.set_data(Payload::new(10 + me as u32)).v),
+                    _ => match node.get_data() {
+                        Some(a) => format!("some {}", a.v),
+                        None => "none".to_string(),
+                    },
+                };
+                (out, t0, std::time::Instant::now())
+            })
+        };
+        let h0 = spawn(0, root.clone(), gate.clone());
+        let h1 = spawn(1, root.clone(), gate.clone());
+        let (o0, s0, e0) = h0.join().unwrap();
+        let (o1, s1, e1) = h1.join().unwrap();
+        if s0 < e1 && s1 < e0 {
+            overlapped += 1;
+        }
+        let end = root.get_data().map(|a| a.v);
+        let verdict: Option<String> = match kind {
+            0 => {
+                let oks = [&o0, &o1].iter().filter(|o| o.starts_with("ok")).count();
+                if oks == 2 { both_ok += 1; }
+                if oks == 0 { none_ok += 1; }
+                let own_back = (o0 == "ok 10" || o0 == "err 10") && (o1 == "ok 11" || o1 == "err 11");
+                let winner = if o0.starts_with("ok") { Some(10) } else if o1.starts_with("ok") { Some(11) } else { None };
+                if oks != 1 || !own_back || end != winner {
+                    Some(format!("two conditional sets on an empty slot: thread 0 -> {}, thread 1 -> {}, slot afterwards {:?} (exactly one must win, the other gets its value back)", o0, o1, end))
+                } else { None }
+            }
+            1 => {
+                // try_set(10) || set(11): try wins first (then set overwrites) or is refused; either way the slot ends with 11
+                if !(o0 == "ok 10" || o0 == "err 10") || o1 != "set 11" || end != Some(11) {
+                    Some(format!("try_set(10) against set(11) on an empty slot: {} / {}, slot afterwards {:?} (must hold 11)", o0, o1, end))
+                } else { None }
+            }
+            2 => {
+                if o0 != "ok 10" || !(o1 == "none" || o1 == "some 10") || end != Some(10) {
+                    Some(format!("try_set(10) against get on an empty slot: {} / {}, slot afterwards {:?} (the set must win, the get sees nothing or 10)", o0, o1, end))
+                } else { None }
+            }
+            _ => {
+                if o0 != "set 10" || !(o1 == "none" || o1 == "some 10") || end != Some(10) {
+                    Some(format!("set(10) against get on an empty slot: {} / {}, slot afterwards {:?}", o0, o1, end))
+                } else { None }
+            }
+        };
+        drop(root);
+        let made_after = NEXT_PAYLOAD.load(Ordering::SeqCst) as usize;
+        let drops: Vec<u32> = DROPS.lock().unwrap()[made_before..made_after].to_vec();
+        let verdict = verdict.or_else(|| {
+            if drops.iter().any(|d| *d != 1) {
+                Some(format!("after the tree was dropped the {} payloads of the round were dropped {:?} times (each exactly once); operations: {} / {}", drops.len(), drops, o0, o1))
+            } else { None }
+        });
+        if first.is_none() {
+            if let Some(v) = verdict {
+                first = Some(format!("round {} (pair kind {}): {}", r, kind, v));
+            }
+        }
+    }
+    (first, vec![("free_rounds".into(), rounds as u64), ("free_rounds_overlapping".into(), overlapped),
+                 ("free_both_conditional_sets_won".into(), both_ok), ("free_no_conditional_set_won".into(), none_ok)])
+}
+
 pub fn run_conc(what: &str, seed: u64, tier: &str, outdir: &str) {
     quiet_panics();
     clear_statics();
@@ -1025,6 +1119,24 @@ pub fn run_conc(what: &str, seed: u64, tier: &str, outdir: &str) {
             let e = execute(tree, prog, *root_first, &mut |en, _| en[r2.below(en.len())]);
             handle(e, "random", &mut ops, &mut imp, &mut oracle, &mut case);
             total_execs += 1;
+        }
+    }
+    if what == "data" {
+        // free-running part (no scheduler: the hooks are inert): what happens between two lock operations -- e.g. a slot
+        // that is allocated on first use -- is invisible to a scheduler that switches at lock points, so the first
+        // data operations on fresh nodes are also raced by real threads and judged by the same sequential specification
+        let rounds = if thorough { 60000 } else { 12000 };
+        let (viol, stats) = free_data_stress(rounds);
+        for (k, v) in stats {
+            dist.insert(k, v);
+        }
+        if let Some(w) = viol {
+            ops.push(format!("case {}", case));
+            imp.push(format!("case {}", case));
+            ops.push(format!("note {}", hex(&format!("free-running first-use races on fresh nodes, {} rounds: {}", rounds, w))));
+            imp.push("ok".into());
+            oracle.push(format!("{}\t{}\tC18\t{}", case, ops.len() - 1, w));
+            case += 1;
         }
     }
     dist.insert("programs".into(), programs.len() as u64);
